@@ -22,7 +22,8 @@ CONSTANTS OpenDev,       \* ids of open findings
           Fams,          \* families to generate
           NRand,         \* random cases per random block
           NRandBlk,      \* random blocks per random family
-          NSeq2, NSeq3,  \* random continuations (length 2 / 3) per (start, first setter)
+          NSeq2, NSeq3,  \* random continuations (length 2 / 3) per (start, first setter) ...
+          SeqEvery, Seed,\* ... for the blocks k with (k + Seed) % SeqEvery = 0
           NBase          \* base tuples of the pairwise Date.UTC family (1 or 2)
 VARIABLES blk, cs
 
@@ -75,6 +76,22 @@ YV == <<I(-1000000), I(-271822), I(-271821), I(-10000), I(-100), I(-1), NZero, I
 YMonths == {I(-13), I(-1), I(0), I(1), I(11), I(12), I(25)}
 YDates == {I(-1), I(0), I(1), I(29), I(31), I(366)}
 Rnd(lo, hi) == I(RandomElement(lo..hi))
+(* wide components: a single field may carry the whole time value (ms up to 8.64e15, ...) *)
+Big(a, b) == NumAdd(NumMul(I(a), I(1000000)), I(b))          \* a * 10^6 + b, exact
+WideMs   == {Big(9223372, 36854), Big(9223372, 36855), Big(10000000, 0), Big(-10000000, 0), Big(-9223372, -36855), MaxT, NumNeg(MaxT),
+             NumAdd(MaxT, I(1)), NumMul(I(4000), Big(1000000, 0)), NumSub(MaxT, I(946684800)), NumAdd(Big(9223372, 36854), Half)}
+WideSec  == {Big(8640000, 0), Big(-8640000, 0), Big(8640000, 1), Big(9223, 372037)}
+WideMin  == {Big(144000, 0), Big(-144000, 0), Big(144000, 1)}
+WideHour == {Big(2400, 0), Big(-2400, 0), Big(2400, 1), Canon(FALSE, <<1>>, 31), Canon(FALSE, <<1>>, 32)}
+WideDay  == {I(100000001), I(100000002), I(-99999999), I(-100000000), I(1000000000)}
+WideAt(p) == CASE p = 3 -> WideDay [] p = 4 -> WideHour [] p = 5 -> WideMin [] p = 6 -> WideSec [] p = 7 -> WideMs
+Epoch7 == <<I(1970), I(0), I(1), I(0), I(0), I(0), I(0)>>
+WideTuples ==
+    UNION {UNION {{[x \in 1..7 |-> IF x = p THEN w ELSE Epoch7[x]], [x \in 1..7 |-> IF x = p THEN w ELSE Base[2][x]]} : w \in WideAt(p)} : p \in 3..7}
+    \cup {<<I(1970), I(0), I(-99999999), I(0), I(0), I(0), w>> : w \in WideMs}           \* a large ms against a large negative day
+    \cup {<<I(275760), I(8), I(13), I(0), I(0), I(0), NumNeg(w)>> : w \in WideMs}
+    \cup {<<I(1970), I(0), I(-99999999), h, I(0), I(0), I(1)>> : h \in WideHour}              \* MakeTime above 2^53, result in range
+    \cup {<<I(1970), I(0), I(-99999999), I(0), m, I(0), I(1)>> : m \in WideMin}
 RandomTuple(i) ==
     <<IF i % 3 = 0 THEN Rnd(-1000000, 1000000) ELSE Rnd(-280000, 280000),
       IF i % 2 = 0 THEN Rnd(-1000000, 1000000) ELSE Rnd(-24, 36),
@@ -102,6 +119,11 @@ OpSet ==
     \cup {Op(p \o "Hours", <<I(7), I(8), y, z>>) : p \in Pfx, y \in {I(9), I(60)}, z \in {I(-1), I(1000), NaN}}
     \cup {Op("setTime", <<x>>) : x \in {NaN, I(0), Dec(TRUE, 15, -1), MaxT, NumAdd(MaxT, I(1)), NumNeg(MaxT), YMD(2000, 0, 1, 0)}}
     \cup {Op("setTime", <<>>)}
+    \cup {Op(p \o "Milliseconds", <<w>>) : p \in Pfx, w \in WideMs}
+    \cup {Op(p \o "Seconds", <<I(0), w>>) : p \in Pfx, w \in WideMs}
+    \cup {Op("setUTCHours", <<I(0), I(0), I(0), w>>) : w \in WideMs}
+    \cup {Op("setUTCSeconds", <<w>>) : w \in WideSec} \cup {Op("setUTCMinutes", <<w>>) : w \in WideMin}
+    \cup {Op("setUTCHours", <<w>>) : w \in WideHour} \cup {Op("setUTCDate", <<w>>) : w \in WideDay}
 OpSeq == SetToSeq(OpSet)
 NOps == Len(OpSeq)
 
@@ -186,7 +208,7 @@ None == [fam |-> "none"]
 Blocks ==
     (IF "inst" \in Fams THEN {<<"year", i>> : i \in 1..Len(Years)} \cup {<<"special", 0>>} \cup {<<"rand", i>> : i \in 1..NRandBlk} ELSE {})
     \cup (IF "utc" \in Fams THEN {<<"utcp", k>> : k \in 1..(NBase * Len(PairSeq) * NFV)} \cup {<<"utcy", k>> : k \in 1..Len(YV)}
-                                 \cup {<<"utcn", n>> : n \in 2..7} \cup {<<"utcr", i>> : i \in 1..NRandBlk} ELSE {})
+                                 \cup {<<"utcn", n>> : n \in 2..7} \cup {<<"utcw", 0>>} \cup {<<"utcr", i>> : i \in 1..NRandBlk} ELSE {})
     \cup (IF "set" \in Fams THEN {<<"set", k>> : k \in 1..(Len(T0) * NOps)} ELSE {})
     \cup (IF "conv" \in Fams THEN {<<"cutc", i>> : i \in 1..NCV} \cup {<<"cctor", 0>>, <<"cnew", 0>>}
                                   \cup {<<"cset", k>> : k \in 1..(Len(ConvSetters2) * Len(ConvT0))} ELSE {})
@@ -211,14 +233,16 @@ Cases(b) ==
           [] b[1] = "utcy" -> {Utc(<<YV[k], m, d>>) : m \in YMonths, d \in YDates} \cup {Utc(<<YV[k], m>>) : m \in YMonths}
           [] b[1] = "utcn" -> {Utc(SubSeq(Base[2], 1, k - 1) \o <<FV[j]>>) : j \in 1..NFV}
                               \cup {Utc(SubSeq(Base[1], 1, k - 1) \o <<FV[j]>>) : j \in 1..NFV}
+          [] b[1] = "utcw" -> {Utc(a) : a \in WideTuples}
           [] b[1] = "utcr" -> {Utc(RandomTuple(i)) : i \in 1..NRand}
           [] b[1] = "set" ->
                 (LET t0 == T0[(k - 1) \div NOps + 1]
                      o1 == OpSeq[((k - 1) % NOps) + 1]
                  IN  {[fam |-> "set", t |-> t0, ops |-> <<o1>>]}
-                     \cup {[fam |-> "set", t |-> t0, ops |-> <<o1, OpSeq[j]>>] : j \in RandomSubset(NSeq2, 1..NOps)}
-                     \cup {[fam |-> "set", t |-> t0, ops |-> <<o1, OpSeq[(r - 1) \div NOps + 1], OpSeq[((r - 1) % NOps) + 1]>>] :
-                              r \in RandomSubset(NSeq3, 1..(NOps * NOps))})
+                     \cup (IF (k + Seed) % SeqEvery # 0 THEN {}
+                           ELSE {[fam |-> "set", t |-> t0, ops |-> <<o1, OpSeq[j]>>] : j \in RandomSubset(NSeq2, 1..NOps)}
+                                \cup {[fam |-> "set", t |-> t0, ops |-> <<o1, OpSeq[(r - 1) \div NOps + 1], OpSeq[((r - 1) % NOps) + 1]>>] :
+                                         r \in RandomSubset(NSeq3, 1..(NOps * NOps))}))
           [] b[1] = "cutc" -> {[fam |-> "cutc", vs |-> <<CV[k], CV[i], CV[j]>>] : i \in 1..NCV, j \in 1..NCV}
                               \cup {[fam |-> "cutc", vs |-> <<CV[k], CV[i]>>] : i \in 1..NCV}
           [] b[1] = "cctor" -> {[fam |-> "cctor", vs |-> <<CV[i], CV[j]>>] : i \in 1..NCV, j \in 1..NCV}
